@@ -1,9 +1,192 @@
-"""Checks that exercise the logos runtime library directly (Source::read, stack depth, bump, API histories)."""
-import os, sys, json
+"""Checks that exercise the logos runtime library directly (Source::read, bump, API histories, stack depth)."""
+import os, sys, json, random, subprocess, time
+from concurrent.futures import ThreadPoolExecutor
+sys.path.insert(0, os.path.dirname(os.path.abspath(__file__)))
+import pipeline as P
+
+LIB = os.path.join(P.HARNESS, 'libcheck')
+ENV = dict(os.environ, CARGO_NET_OFFLINE='true')
+USIZE_MAX = 2 ** 64 - 1
+
+
+def build_libcheck(configs):
+    """configs: list of (name, features, release). returns dict name -> binary path or None"""
+    def one(c):
+        name, feats, rel = c
+        tdir = os.path.join(P.HARNESS, 'target-lib', name)
+        cmd = ['cargo', 'build', '--offline', '--target-dir', tdir] + (['--release'] if rel else []) + (['--features', feats] if feats else [])
+        p = subprocess.run(cmd, cwd=LIB, env=ENV, capture_output=True, text=True)
+        return name, (os.path.join(tdir, 'release' if rel else 'debug', 'libcheck') if p.returncode == 0 else None), p.stderr[-2000:]
+    with ThreadPoolExecutor(len(configs)) as ex:
+        res = list(ex.map(one, configs))
+    return {n: (b, e) for n, b, e in res}
+
+
+LIBCFG = {
+    'quick': [('dbg', '', False), ('dbg_safe', 'safe', False), ('rel', '', True), ('rel_safe', 'safe', True)],
+    'thorough': [('dbg', '', False), ('dbg_safe', 'safe', False), ('rel', '', True), ('rel_safe', 'safe', True)],
+}
+
+
+def run_lib(binp, lines):
+    p = subprocess.run([binp], input='\n'.join(lines) + '\n', capture_output=True, text=True, timeout=600)
+    out = {}
+    for ln in p.stdout.split('\n'):
+        if ' : ' in ln:
+            k, v = ln.split(' : ', 1)
+            out[k] = v
+    return out, p.returncode
+
+
+def lean_ask(queries):
+    lines = ['CASE L'] + ['Q ' + q for q in queries]
+    ans = P.run_lean(lines, nproc=1)
+    return {k[2:]: v for k, v in ans.items() if k.startswith('L ')}
 
 
 def source_read_differential(run, tier, seed, log=print):
-    return dict(evaluations=0, distinct_nontrivial=0, note='not built yet')
+    """Source::read for str and [u8]: chunk sizes u8 and 1..32, offsets around len and usize::MAX,
+    sources presented as prefixes of a longer allocation filled with a sentinel."""
+    R = random.Random(seed)
+    bins = build_libcheck(LIBCFG[tier])
+    srcs = [b'', b'a', b'ab', b'abcdefg', b'abcdefgh', b'abcdefghi', 'aé中😀'.encode(), bytes(range(1, 33)), bytes(range(1, 41))]
+    reqs = []
+    for s in srcs:
+        n = len(s)
+        offs = sorted({0, 1, max(0, n - 33), max(0, n - 9), max(0, n - 8), max(0, n - 2), max(0, n - 1), n, n + 1, n + 2, n + 8,
+                       USIZE_MAX, USIZE_MAX - 1, USIZE_MAX - 7, USIZE_MAX - 8, USIZE_MAX - 31, USIZE_MAX - 32, 2 ** 63, 2 ** 32})
+        sizes = list(range(0, 33)) if tier == 'thorough' else [0, 1, 2, 3, 7, 8, 9, 16, 31, 32]
+        for off in offs:
+            for sz in sizes:
+                reqs.append('READ %s %d %d' % (P.hexs(s), off, sz))
+    model = lean_ask(reqs)
+    evals = 0
+    nontriv = set()
+    bad = 0
+    for name, (binp, err) in bins.items():
+        if binp is None:
+            run.violation('libcheck-build', dict(config=name, stderr=err), no_input=True)
+            continue
+        out, rc = run_lib(binp, reqs)
+        for rq in reqs:
+            evals += 1
+            got = out.get(rq)
+            want = model.get(rq)
+            t = rq.split(' ')
+            ln = len(bytes.fromhex(t[1] if t[1] != '-' else ''))
+            off, sz = int(t[2]), max(1, int(t[3]))
+            if abs(off + sz - ln) <= 1 or off > 2 ** 62:
+                nontriv.add(rq)
+            if got != want:
+                bad += 1
+                run.violation('source-read', dict(config=name, request=rq, observed=got, expected=want,
+                                                  what='Source::read differs from the model (chunk returned iff offset + size <= len without overflow, holding the bytes at that offset)'),
+                              key='read|%s|%s' % (name, rq))
+    return dict(evaluations=evals, distinct_nontrivial=len(nontriv), failures=bad, configs=list(bins))
+
+
+def check_c15(tier, seed, log=print):
+    from common import Run, audit, load_theorems, TRUSTED_BASE
+    run = Run('C15', tier, seed)
+    au = audit('C15', load_theorems('C15'))
+    for pb in au['problems']:
+        run.violation('proof', dict(theorem_audit=pb), no_input=True)
+    P.build_lean()
+    bins = build_libcheck(LIBCFG[tier])
+    R = random.Random(seed)
+    srcs_s = ['', 'a', 'ab cd', 'aé', 'é', 'ab中c', '😀x', 'abc def ghi', 'ééé']
+    srcs_b = [b'', b'ab', b'ab \xff\xfe cd', b'abc']
+    reqs = []
+    for s in srcs_s:
+        b = s.encode('utf-8')
+        n = len(b)
+        ns = sorted(set(list(range(0, n + 3)) + [USIZE_MAX, USIZE_MAX - 1, USIZE_MAX - n, USIZE_MAX - n + 1, USIZE_MAX - n - 1, 2 ** 63, 2 ** 64 - 2, 2 ** 32]))
+        ns = [x for x in ns if 0 <= x <= USIZE_MAX]
+        for nexts in (0, 1, 2):
+            for x in ns:
+                reqs.append('BUMP s %s %d %d' % (P.hexs(b), nexts, x))
+    for b in srcs_b:
+        n = len(b)
+        ns = sorted(set(list(range(0, n + 3)) + [USIZE_MAX, USIZE_MAX - 1, USIZE_MAX - n + 1, 2 ** 64 - 2]))
+        ns = [x for x in ns if 0 <= x <= USIZE_MAX]
+        for nexts in (0, 1, 2):
+            for x in ns:
+                reqs.append('BUMP b %s %d %d' % (P.hexs(b), nexts, x))
+    evals = 0
+    nontriv = set()
+    samples = []
+    tie_dis = 0
+    for name, (binp, err) in bins.items():
+        if binp is None:
+            run.violation('libcheck-build', dict(config=name, stderr=err), no_input=True)
+            continue
+        out, rc = run_lib(binp, reqs)
+        # model queries need the span before the bump, which the real run reports
+        qs = {}
+        for rq in reqs:
+            v = out.get(rq)
+            if v is None or not v.startswith('pre:'):
+                continue
+            pre = v.split(' ')[0][4:]
+            a, b = pre.split('-')
+            t = rq.split(' ')
+            qs[rq] = 'BUMP %s %s %s %s %s' % (t[1], t[2], a, b, t[4])
+        model = lean_ask(sorted(set(qs.values())))
+        for rq in reqs:
+            v = out.get(rq)
+            evals += 1
+            if v is None:
+                run.violation('libcheck-crash', dict(config=name, request=rq, what='no answer (process died?)'), key='crash|%s|%s' % (name, rq))
+                continue
+            if v == 'NOTUTF8':
+                continue
+            parts = v.split(' ')
+            t = rq.split(' ')
+            srclen = len(bytes.fromhex(t[2] if t[2] != '-' else ''))
+            n = int(t[4])
+            res, s_, e_ = parts[1], int(parts[2]), int(parts[3])
+            pre_s, pre_e = map(int, parts[0][4:].split('-'))
+            if n > srclen:
+                nontriv.add(rq)
+            # --- property oracle, directly on the implementation ---
+            msg = None
+            src = bytes.fromhex(t[2] if t[2] != '-' else '')
+
+            def is_b(i):
+                if i > srclen:
+                    return False
+                if t[1] == 'b':
+                    return True
+                return i == 0 or i == srclen or (src[i] & 0xC0) != 0x80
+            in_range = pre_e + n <= USIZE_MAX and is_b(pre_e + n)
+            if res == 'ok' and not in_range:
+                msg = 'bump(%d) at end %d of a %d-byte source succeeded' % (n, pre_e, srclen)
+            elif res == 'panic' and in_range:
+                msg = 'bump(%d) to a valid position panicked' % n
+            elif 'INVALIDSPAN' in v or 'SLICEPANIC' in v:
+                msg = 'after bump(%d) (%s) the lexer span is %d..%d: slice()/remainder() are not safe' % (n, res, s_, e_)
+            elif res == 'ok' and (s_, e_) != (pre_s, pre_e + n):
+                msg = 'bump(%d) moved the span to %d..%d' % (n, s_, e_)
+            if msg:
+                run.violation('bump', dict(config=name, request=rq, source_text=src.decode('utf-8', 'replace'), observed=v, what=msg),
+                              key='bump|%s' % rq)
+            elif len(samples) < 5 and n > srclen:
+                samples.append(dict(config=name, request=rq, observed=v))
+            # --- tie with the model of the repaired rule ---
+            mv = model.get(qs.get(rq, ''), None)
+            if mv is not None and mv != ' '.join(parts[1:4]):
+                tie_dis += 1
+                if not msg:
+                    run.violation('tie', dict(config=name, request=rq, observed=v, model=mv, correspondence='Lexer::bump vs LogosModel.bumpFixed'),
+                                  no_input=True, key='bumptie|%s' % rq)
+    run.coverage.update(dict(obligations=au['obligations'], discharged=au['discharged'], theorems=au['names'], axioms=au['axioms'],
+                             checker_cmd=au['checker_cmd'], trusted_base=TRUSTED_BASE,
+                             evaluations=evals, distinct_nontrivial=len(nontriv),
+                             rule='Lexer::bump(n) on str and [u8] lexers at three positions, n over 0..len+2, usize::MAX-k, 2^63, 2^64-2 and wrap-around values, in debug and release builds with and without forbid_unsafe, under catch_unwind; '
+                                  'afterwards span() is inspected and slice()/remainder() only when the span is valid; oracle = the property itself (succeeds iff new end representable, in range and on a boundary; span valid in every case); non-trivial = n > len',
+                             samples=samples, configs=list(bins), model_vs_impl_disagreements=tie_dis))
+    run.assumptions += ['the release/debug difference (overflow checks) is exercised on the real builds; the model treats usize as 64-bit naturals with explicit overflow tests']
+    return run.finish()
 
 
 def stack_check(run, r, tier, seed, log=print):
